@@ -196,9 +196,7 @@ class Run:
                     self.distinct.add(k)
             if len(self.samples) < 4 and (nontrivial is None or nontrivial(rec)):
                 self.samples.append(sample_of(rec))
-            why = set(v["why"])
-            if relevant is not None:
-                why &= set(relevant)
+            why = filter_why(v["why"], relevant)
             if why:
                 rec["_why"] = sorted(why)
                 bad.append(rec)
@@ -228,9 +226,7 @@ class Run:
         out = []
         flaky = 0
         for rec in iter_ndjson(obs2):
-            why = set(v2[rec["id"]]["why"])
-            if relevant is not None:
-                why &= set(relevant)
+            why = filter_why(v2[rec["id"]]["why"], relevant)
             if why:
                 rec["_why"] = sorted(why)
                 out.append(rec)
@@ -240,6 +236,16 @@ class Run:
             self.notes.append("%d rejected records were not reproduced on re-execution (not counted as violations)" % flaky)
             self.extra["unreproduced"] = self.extra.get("unreproduced", 0) + flaky
         return out
+
+
+def filter_why(why, relevant):
+    """relevant: None (all conjuncts), a set of names, or a function why -> subset"""
+    why = set(why)
+    if relevant is None:
+        return why
+    if callable(relevant):
+        return set(relevant(why))
+    return why & set(relevant)
 
 
 def iter_ndjson(path):
